@@ -319,6 +319,11 @@ class ThreadPoolExecutor:
     """FIFO work queue, at most n tasks running, shutdown(wait=True) waits for accepted work."""
 
     def __init__(self, max_workers=None, *a, **k):
+        if max_workers is None:
+            # concurrent.futures' own default: min(32, cpu + 4)
+            max_workers = min(32, (getattr(SCHED, "cpu", None) or 1) + 4)
+        if max_workers <= 0:
+            raise ValueError("max_workers must be greater than 0")
         self._max_workers = max_workers
         self.workq = collections.deque()
         self.running = 0
@@ -488,6 +493,7 @@ def install(sched, sock, cpu=8):
     S.create_socket_and_connect = lambda address, ssl_context=None: sock
     S.time, S.os = TimeShim, OsShim
     S.cpu_count = lambda: cpu
+    sched.cpu = cpu
 
     class _TB:
         @staticmethod
